@@ -185,10 +185,10 @@ class Gen:
                 raise ValueError("headers too wide")
             total = self.rng.choice(choices[:4])
         free = total - need
-        # H27: a size/count field that is not first in its chunk and whose backing type equals the
-        # chunk type makes the Rust encoder emit `.. as u16 << 7`, which syn cannot parse
-        # (generator panic).  Size/count headers therefore come first (element-size next).
-        hs = sorted(headers, key=lambda h: 0 if ("_size_" in h[0] or "_count_" in h[0]) else 1)
+        # (H27, repaired by fix 570ca89 in /repo: a size/count field that is not first in its chunk and whose backing type
+        #  equals the chunk type made the Rust encoder emit `.. as u16 << 7`.  Size/count headers used to be kept first;
+        #  they are now placed anywhere in the chunk.)
+        hs = list(headers)
         if sum(1 for h in hs if "_size_" in h[0] or "_count_" in h[0]) > 1:
             raise ValueError("two size/count headers in one chunk")
         fields = [h for h, _ in hs]
@@ -198,11 +198,9 @@ class Gen:
             for w in self.split_bits(free, k):
                 fill.append(self.filler_field(w, names))
         self.rng.shuffle(fill)
-        if not any("_size_" in f or "_count_" in f for f in fields):
-            fields = fields + fill
-            self.rng.shuffle(fields)
-            return fields
-        return fields + fill
+        fields = fields + fill
+        self.rng.shuffle(fields)
+        return fields
 
     def size_width(self, maxw=None):
         c = [1, 2, 3, 4, 5, 7, 8, 8, 9, 12, 16, 16, 24, 32]
